@@ -22,17 +22,24 @@ def run_walk(sess):
     M = 4 if quick else 5
     sess.bounds[fam] = {'nodes': M, 'roots': 1, 'zip members': '0..2', 'corrupt archives': 'symbolic', 'member open failures': 'symbolic',
                         'depth window': 'mindepth symbolic 0..2', 'traversal': 'bfs (with and without the option) and dfs'}
-    for archives, dfs in ((True, False), (False, False), (True, True)):
+    for archives, dfs, faults in ((True, False, True), (False, False, False), (True, True, False)):
         ex = sess.executor(W.models(), unwind=3 * M + 6, maxsteps=400000)
         viol = {}; st = {'paths': 0}
 
-        def runp(ctx, archives=archives, dfs=dfs):
+        def runp(ctx, archives=archives, dfs=dfs, faults=faults):
             fs = W.FS(ctx, M, roots=1, kinds=(W.FILE, W.DIR), archives=True)
             ctx.ghost['fs'] = fs
             ctx.ghost['match_all'] = BoolVal(True)
             for i in range(1, M):
-                ctx.assume(Or(Not(fs.is_zip[i]), fs.kind[i] == BitVecVal(W.FILE, 8)))
-            ctx.ghost['member_fault'] = {(i, j): ctx.fresh_bool('mfault_%d_%d' % (i, j)) for i in range(1, M) for j in range(fs.max_members + 1)}
+                # a directory may be NAMED like an archive (libs.jar/): it cannot be parsed as one and is walked like any directory
+                if faults or not archives:
+                    ctx.assume(Or(Not(fs.is_zip[i]), fs.kind[i] == BitVecVal(W.FILE, 8)))
+                else:
+                    ctx.assume(Or(Not(fs.is_zip[i]), fs.kind[i] == BitVecVal(W.FILE, 8), Not(fs.zip_ok[i])))
+            # member open failures and archive files that cannot be opened at all (permissions, a dangling link named like an archive):
+            # symbolic in the breadth-first run with the option, absent in the other two runs
+            ctx.ghost['member_fault'] = {(i, j): (ctx.fresh_bool('mfault_%d_%d' % (i, j)) if faults else BoolVal(False)) for i in range(1, M) for j in range(fs.max_members + 1)}
+            ctx.ghost['open_fault'] = {i: (ctx.fresh_bool('openfault%d' % i) if faults else BoolVal(False)) for i in range(1, M)}
             mind = ctx.fresh_bv('mindepth', 32); ctx.assume(ULE(mind, BitVecVal(2, 32)))
             roots = [W.mk_root(prog, 'R0', mind, BitVecVal(0, 32), dfs, archives=BoolVal(archives))]
             q = W.mk_query(prog, roots, BitVecVal(0, 32), ordered=False)
@@ -63,7 +70,7 @@ def run_walk(sess):
                 exp = And(reach[i], win(depth[i]))
                 conds.append(If(exp, BitVecVal(1, 8), BitVecVal(0, 8)) == BitVecVal(cnt.get((i, None), 0), 8))
                 for j in range(fs.max_members):
-                    mexp = And(exp, fs.is_zip[i], fs.zip_ok[i], ULT(BitVecVal(j, 8), fs.members[i]), Not(mf[(i, j)])) if archives else BoolVal(False)
+                    mexp = And(exp, fs.is_zip[i], fs.zip_ok[i], Not(ctx.ghost['open_fault'][i]), Not(fs.isdir(i)), ULT(BitVecVal(j, 8), fs.members[i]), Not(mf[(i, j)])) if archives else BoolVal(False)
                     conds.append(If(mexp, BitVecVal(1, 8), BitVecVal(0, 8)) == BitVecVal(cnt.get((i, j), 0), 8))
             for t in cnt:
                 if t[1] is not None and t[1] >= fs.max_members:
@@ -115,13 +122,18 @@ def cli_replay(fs, m, mind, mf, archives, dfs=False):
             if not usable[i]:
                 continue
             depth[i] = depth[par[i]] + 1
-            iszip = z3.is_true(m.eval(fs.is_zip[i], model_completion=True)) and kind[i] == 0
+            zipname = z3.is_true(m.eval(fs.is_zip[i], model_completion=True))
+            iszip = zipname and kind[i] == 0
             zok = z3.is_true(m.eval(fs.zip_ok[i], model_completion=True))
+            ofault = hasattr(fs, 'ctx') and z3.is_true(m.eval(fs.ctx.ghost.get('open_fault', {}).get(i, BoolVal(False)), model_completion=True))
             nm = m.eval(fs.members[i], model_completion=True).as_long()
-            newp = path[i] + ('.zip' if iszip else '')
+            newp = path[i] + ('.zip' if (iszip or (zipname and kind[i] == 1)) else '')
             ent = tree.pop(path[i]); path[i] = newp
             bad = {j for j in range(nm) if z3.is_true(m.eval(mf[(i, j)], model_completion=True))}
-            if iszip:
+            if iszip and ofault:
+                ent = {'kind': 'symlink', 'target': '/nonexistent/archive'}      # an archive name that cannot be opened
+                zok = False
+            elif iszip:
                 ent = {'content': make_zip_with_bad(nm, bad) if zok else b'PK\x03\x04garbage'}
             tree[newp] = ent
             inwin = mind == 0 or depth[i] >= mind
@@ -155,7 +167,7 @@ def main(sess):
         run_walk(sess)
     if not only or 'limit' in only:
         from drivers import c06_walker
-        c06_walker.run(sess, configs=[(4, 1, False)] if sess.tier == 'quick' else [(4, 1, False, True), (4, 1, True, True), (5, 1, False, False)], fam='limit')
+        c06_walker.run(sess, configs=[(4, 1, False), (4, 1, True)] if sess.tier == 'quick' else [(4, 1, False, True), (4, 1, True, True), (5, 1, False, False)], fam='limit')
     try:
         from drivers import c19_fileinfo
         if not only or 'fileinfo' in only:
